@@ -204,6 +204,70 @@ def c17(res, tier, deadline):
     e1.execute(res, runs, deadline_total=deadline, second_oracle=False)
 
 
+@check("C10")
+def c10(res, tier, deadline):
+    res.rule = ("the same registries (spaces as in C01) under each RTTI flavour: std_rtti (rel), "
+                "integer ids with identity projection without hash (int), two ids per class with "
+                "type_index(id)=id/2 with (prj) and without (prn) hash, deferred ids without (dfr) "
+                "and with (dfh) hash; each followed by a second update on the same registrations. "
+                "For prj/prn every assignment of aliases to every use of a class id (records, base "
+                "lists, method and definition parameters; all 2^uses up to a limit, 6 patterns "
+                "beyond) and every alias of every argument. Oracle: reference model; cross-flavour "
+                "digest of all outcomes must be identical.")
+    res.assumptions = COMMON_ASSUMPTIONS + [
+        "an id can be the dynamic id of an object only if some class record registered it (as with type_info objects)"]
+    base = ("n=1-4,k=2,d=3,shapes=RR;n=1-5,k=1,d=3,shapes=R;n=1-3,k=3,d=2,shapes=RRR;"
+            "n=1-4,k=2,d=2,shapes=RR,pres=direct;n=1-4,k=1,d=2,shapes=R,pres=direct|noself")
+    big = ("n=1-5,k=2,d=3,shapes=RR;n=1-6,k=1,d=3,shapes=R;n=1-4,k=3,d=2,shapes=RRR;"
+           "n=1-5,k=2,d=2,shapes=RR,pres=direct;n=1-5,k=1,d=2,shapes=R,pres=direct|noself;"
+           "n=1-3,k=4,d=2,shapes=RRRR")
+    space = base if tier == "quick" else big
+    runs = [Run(tag, "dispatch", space, "C01,C03", extra="reupdate=1", dump_mod=1999)
+            for tag in ("rel", "int", "prj", "prn", "dfr", "dfh")]
+    fl = ("n=1-2,k=2,d=2,shapes=RR,limit=10;n=1-3,k=1,d=2,shapes=R|V,limit=8;"
+          "n=3-4,k=2,d=2,shapes=RR,limit=0;n=1-3,k=3,d=1,shapes=RRR,limit=0")
+    if tier != "quick":
+        fl = ("n=1-2,k=2,d=2,shapes=RR,limit=12;n=1-3,k=1,d=2,shapes=R|V,limit=10;"
+              "n=3,k=2,d=2,shapes=RR,limit=8;n=4-5,k=2,d=2,shapes=RR,limit=0;"
+              "n=1-4,k=3,d=2,shapes=RRR,limit=0")
+    for tag in ("prj", "prn"):
+        runs.append(Run(tag, "flavour", fl, "C01,C03", extra="reupdate=1",
+                        label="%s/plain/flavour" % tag))
+    e1.execute(res, runs, deadline_total=deadline)
+    digests = {}
+    for b in res.bounds:
+        if b["run"].endswith("/dispatch") and b["complete"]:
+            digests[b["run"]] = b["counters"].get("digest", 0) % (1 << 64)
+    res.extra["cross_flavour_digests"] = digests
+    if len(set(digests.values())) > 1 and not res.confirmed:
+        res.harness_errors.append("cross-flavour digests differ without a violation candidate: %s" % digests)
+
+
+@check("C15")
+def c15(res, tier, deadline):
+    res.rule = ("stock policy::debug (rebound): every registry of the space x every class left "
+                "out in turn x every place it can still occur: (a) a base list, (b) a method "
+                "parameter, (c) a definition parameter -> update must report unknown_class_error "
+                "with that class's id; (d) only the dynamic class of an argument at each virtual "
+                "position, on routes virtual_<T&>, virtual_<T*>, shared_ptr (by value / const&), "
+                "virtual_ptr from a base reference, virtual_shared_ptr, const virtual_ptr&, and "
+                "virtual_ptr from an object of exactly its static type -> unknown_class_error with "
+                "that id at the call / construction, no definition run, no crash (ASan build); "
+                "final(obj of another dynamic type) -> method_table_error.")
+    res.assumptions = COMMON_ASSUMPTIONS
+    if tier == "quick":
+        sp = ("n=1-4,k=1,d=2,shapes=R|P|S|C|V|W|X;n=1-4,k=2,d=2,shapes=RR;"
+              "n=1-3,k=2,d=2,shapes=VV|RV|PP|VR|WV|XX|SR|RC")
+        runs = [Run("dbg", "unknown", sp, variant="assert"),
+                Run("dbg", "unknown", "n=1-3,k=1,d=2,shapes=R|V|S;n=1-3,k=2,d=1,shapes=RR|RV", variant="asan")]
+    else:
+        sp = ("n=1-5,k=1,d=2,shapes=R|P|S|C|V|W|X;n=1-5,k=2,d=2,shapes=RR;"
+              "n=1-4,k=2,d=2,shapes=VV|RV|PP|VR|WV|XX|SR|RC;n=1-3,k=3,d=1,shapes=RRR|VRP")
+        runs = [Run("dbg", "unknown", sp, variant="assert"),
+                Run("dbg", "unknown", "n=1-4,k=1,d=2,shapes=R|V|S;n=1-4,k=2,d=2,shapes=RR|RV", variant="asan")]
+    e1.execute(res, runs, deadline_total=deadline, second_oracle=False)
+
+
 # --------------------------------------------------------------------------
 def replay(prop, path):
     with open(path) as fh:
